@@ -197,6 +197,9 @@ func acceptReturns(fn *ssa.Function, kind AcceptKind) ([]acceptRet, error) {
 		if !ok {
 			continue
 		}
+		if b.Index != 0 && len(b.Preds) == 0 {
+			continue // recover block: not reachable by normal control flow
+		}
 		if kind == AcceptAny {
 			out = append(out, acceptRet{ret, nil})
 			continue
